@@ -505,6 +505,7 @@ func runClientCase(seed uint64, disk bool, forced string) {
 		r.PropFail("client-block-not-decoded", fmt.Sprintf("a fresh btc.Block of a valid %d-transaction block: BuildTxList()=%s %s, %d transactions", len(real), fresh.err, fresh.panicked, len(fresh.txs)), doc)
 		return
 	}
+	beat("the node's handlers on history "+shape, doc)
 	drainNetBlocks()
 	// the model follows the same history (small cases): state of the object after every refused copy, then the delivery
 	var model []string
@@ -527,6 +528,7 @@ func runClientCase(seed uint64, disk bool, forced string) {
 	for i := range copies {
 		cp := &copies[i]
 		r.Hit(fmt.Sprintf("client-refused-copy:%c:%s", cp.via, cp.what))
+		beat(fmt.Sprintf("the node's handler for copy %d of history %s", i, shape), doc)
 		peer := e.peer(i % 2)
 		if p := e.deliver(peer, hdr, hash, cp, g); p != "" {
 			r.PropFail("client-handler-panic", fmt.Sprintf("history %s: the handler panicked on copy %d: %s", shape, i, p), doc)
@@ -559,6 +561,7 @@ func runClientCase(seed uint64, disk bool, forced string) {
 	}
 	// the real block
 	r.Hit(fmt.Sprintf("client-real-block-via:%c", final.via))
+	beat("the node's handler for the real block of history "+shape, doc)
 	honest := e.peer(2)
 	if p := e.deliver(honest, hdr, hash, &final, g); p != "" {
 		r.PropFail("client-handler-panic", fmt.Sprintf("history %s: the handler panicked on the real block: %s", shape, p), doc)
@@ -832,8 +835,9 @@ func diskCase(g *vlib.Rng, forced string, hash *btc.Uint256, full []byte, real [
 	doc["disk_fault"] = fault
 	doc["hashes_len"] = fmt.Sprintf("%d of %d", len(newHs), total)
 	if e.drv == nil {
-		e.drv = buildDrv()
+		unwatched(func() { e.drv = buildDrv() })
 	}
+	beat("get_block_from_disk_cache (child process), fault "+fault+", history "+shape, doc)
 	ans := e.drv.ask("get " + common.GocoinHomeDir + " " + hash.String())
 	if ans == "no-driver" {
 		r.TieFail("tie-diskcache-driver", "the client program with the C09 driver file does not build / start against the repository: "+short([]byte(e.drv.err)), doc)
@@ -900,6 +904,7 @@ func diskCase(g *vlib.Rng, forced string, hash *btc.Uint256, full []byte, real [
 // ---------------------------------------------------------------- stream
 
 func clientStream(g *vlib.Rng) {
+	beat("setting up the synthetic node", nil)
 	cli = cliSetup()
 	defer cli.close()
 	n := r.N(70, 900)
